@@ -155,22 +155,35 @@ Qed.
 Lemma need_le_3 sz buf p : (need sz buf p <= 3)%nat.
 Proof. unfold need. destruct (zlen p >? sz - zlen buf); [destruct (is_nil buf)|]; lia. Qed.
 
+Lemma flush_keeps buf : let '(b', ev) := bufio_flush buf in sink_of ev ++ b' = buf /\ zlen b' <= zlen buf.
+Proof.
+  unfold bufio_flush. destruct (is_nil buf) eqn:E.
+  - destruct buf; [|discriminate]. split; [reflexivity|lia].
+  - rewrite sink_one. rewrite app_nil_r. split; [reflexivity|]. rewrite zlen_nil. apply zlen_nonneg.
+Qed.
 Lemma bws_write_spec sz s p : 0 < sz -> zlen (b_buf s) <= sz ->
   let '(s', n, ev) := bws_write sz s p in
   n = zlen p /\ zlen (b_buf s') <= sz /\ sink_of ev ++ b_buf s' = b_buf s ++ p.
 Proof.
   intros Hsz Hb. unfold bws_write.
   destruct ((zlen p >? sz - zlen (b_buf s)) && (zlen (b_buf s) >? 0)) eqn:Epre.
-  - unfold bufio_flush. destruct (is_nil (b_buf s)) eqn:Enil.
+  - unfold bufio_flush at 1. destruct (is_nil (b_buf s)) eqn:Enil.
     + destruct (b_buf s); [|discriminate]. rewrite zlen_nil in Epre.
       apply andb_true_iff in Epre as [_ E]. lia.
     + pose proof (bufio_write_spec 3 sz [] p 0 [] Hsz ltac:(rewrite zlen_nil; lia) (need_le_3 _ _ _)) as H.
       destruct (bufio_write 3 sz [] p 0 []) as [[b' n'] e']. destruct H as (H1 & H2 & H3).
-      cbn [b_buf]. repeat split; [lia|exact H2|]. rewrite sink_of_app, <- app_assoc, H3, sink_one.
-      unfold sink_of. cbn [map concat app]. reflexivity.
+      pose proof (flush_keeps b') as Hf.
+      destruct (b_stopped s); [destruct (bufio_flush b') as [b3 e3]; destruct Hf as [F1 F2]|]; cbn [b_buf].
+      * repeat split; [lia|lia|]. rewrite !sink_of_app, <- !app_assoc, F1, H3, sink_one.
+        unfold sink_of. cbn [map concat app]. reflexivity.
+      * repeat split; [lia|exact H2|]. rewrite !sink_of_app, <- !app_assoc. unfold sink_of at 3. cbn [map concat app]. rewrite H3, sink_one.
+        unfold sink_of. cbn [map concat app]. reflexivity.
   - pose proof (bufio_write_spec 3 sz (b_buf s) p 0 [] Hsz Hb (need_le_3 _ _ _)) as H.
     destruct (bufio_write 3 sz (b_buf s) p 0 []) as [[b' n'] e']. destruct H as (H1 & H2 & H3).
-    cbn [b_buf app]. repeat split; [lia|exact H2|exact H3].
+    pose proof (flush_keeps b') as Hf.
+    destruct (b_stopped s); [destruct (bufio_flush b') as [b3 e3]; destruct Hf as [F1 F2]|]; cbn [b_buf app].
+    + repeat split; [lia|lia|]. now rewrite sink_of_app, <- app_assoc, F1.
+    + repeat split; [lia|exact H2|]. rewrite sink_of_app. unfold sink_of at 2. cbn [map concat]. now rewrite app_nil_r.
 Qed.
 
 Lemma bws_sync_spec sz s : zlen (b_buf s) <= sz ->
@@ -188,9 +201,10 @@ Lemma bws_stop_spec sz s : zlen (b_buf s) <= sz ->
   let '(s', ev) := bws_stop s in
   zlen (b_buf s') <= sz /\ sink_of ev ++ b_buf s' = b_buf s.
 Proof.
-  intros Hb. unfold bws_stop. destruct (b_init s && negb (b_stopped s)).
-  - apply (bws_sync_spec sz {| b_init := b_init s; b_stopped := true; b_buf := b_buf s |}). exact Hb.
+  intros Hb. unfold bws_stop. destruct (negb (b_init s)); [split; [exact Hb|reflexivity]|].
+  destruct (b_stopped s).
   - split; [exact Hb|reflexivity].
+  - apply (bws_sync_spec sz {| b_init := b_init s; b_stopped := true; b_buf := b_buf s |}). exact Hb.
 Qed.
 
 (* every Write of every history returns len(p) (the error is nil by construction of the model:
